@@ -102,7 +102,9 @@ func isFreshValue1(c *freshCtx, v ssa.Value, seen map[ssa.Value]bool) bool {
 	seen[v] = true
 	switch x := v.(type) {
 	case *ssa.Alloc:
-		return true
+		// an aggregate created here is fresh; a variable cell whose content is
+		// written through its address (Unpack*) holds a caller-supplied value
+		return !isVarCell(x)
 	case *ssa.MakeSlice, *ssa.MakeMap:
 		return true
 	case *ssa.Call:
